@@ -33,12 +33,27 @@ class Q:
             return Q(Fr(float(x)))
         raise TypeError(type(x))
 
+    def __pow__(s, n):
+        if isinstance(n, np.ndarray):
+            return NotImplemented
+        n = int(n)
+        if s.im:
+            r = Q(1)
+            for _ in range(abs(n)):
+                r = r*s
+            return r if n >= 0 else Q(1)/r
+        return Q(s.re**n)
+
     def __add__(s, o):
+        if isinstance(o, np.ndarray):
+            return NotImplemented
         o = Q.c(o)
         return Q(s.re+o.re, s.im+o.im)
     __radd__ = __add__
 
     def __sub__(s, o):
+        if isinstance(o, np.ndarray):
+            return NotImplemented
         o = Q.c(o)
         return Q(s.re-o.re, s.im-o.im)
 
@@ -47,6 +62,8 @@ class Q:
         return Q(o.re-s.re, o.im-s.im)
 
     def __mul__(s, o):
+        if isinstance(o, np.ndarray):
+            return NotImplemented
         o = Q.c(o)
         if not o.im and not s.im:
             return Q(s.re*o.re)
@@ -54,6 +71,8 @@ class Q:
     __rmul__ = __mul__
 
     def __truediv__(s, o):
+        if isinstance(o, np.ndarray):
+            return NotImplemented
         o = Q.c(o)
         if not o.im:
             return Q(s.re/o.re, s.im/o.re)
@@ -172,7 +191,7 @@ class NPShim:
 _cache = {}
 
 
-def exact_fn(module, name, deps=('solve', 'blocks_to_amat')):
+def exact_fn(module, name, deps=('solve', 'blocks_to_amat'), extra=None):
     """Rebuild `module.name.py_func` with the shimmed globals."""
     key = (module.__name__, name)
     if key in _cache:
@@ -181,6 +200,7 @@ def exact_fn(module, name, deps=('solve', 'blocks_to_amat')):
     f = getattr(f, 'py_func', f)
     g = dict(f.__globals__)
     g['np'] = NPShim()
+    g.update(extra or {})
     for n in deps:
         if hasattr(module, n):
             ff = getattr(module, n)
